@@ -5,7 +5,7 @@ import subprocess
 import sys
 import os
 
-REPO = '/repo'
+REPO = os.environ.get('MUT_REPO', '/repo')   # a scratch worktree may be used
 VERIF = os.path.dirname(os.path.dirname(os.path.abspath(__file__)))
 M = [
  ('m_c10_submitnum', 'C10', 'cylc/flow/task_events_mgr.py',
@@ -122,6 +122,21 @@ M = [
  ('m_c29_setall', 'C29', 'cylc/flow/task_proxy.py',
   "                if not set_all and pre not in prereqs:\n                    continue",
   "                if not set_all and pre.task not in {p.task for p in prereqs}:\n                    continue"),
+ ('m_c30_forced', 'C30', 'cylc/flow/prerequisite.py',
+  "            if t_output.get_id() == id_ and sat and sat != 'force satisfied':",
+  "            if t_output.get_id() == id_ and sat:"),
+ ('m_c30_orphan', 'C30', 'cylc/flow/commands.py',
+  "                or child_itask.state.any_satisfied_prerequisite_outputs()\n            ):\n                continue",
+  "                or True\n            ):\n                continue"),
+ ('m_c30_dbskip', 'C30', 'cylc/flow/commands.py',
+  "        db_removed_fnums = schd.workflow_db_mgr.remove_task_from_flows(\n            id_['cycle'], id_['task'], flow_nums,\n        )",
+  "        db_removed_fnums = set() if itask else schd.workflow_db_mgr.remove_task_from_flows(\n            id_['cycle'], id_['task'], flow_nums,\n        )"),
+ ('m_c30_holdleak', 'C30', 'cylc/flow/commands.py',
+  "            schd.pool.tasks_to_hold.discard((itask.tdef.name, itask.point))",
+  "            pass"),
+ ('m_c30_flowmatch', 'C30', 'cylc/flow/commands.py',
+  "            fnums_to_remove = child_itask.match_flows(flow_nums)\n            if not fnums_to_remove:\n                continue",
+  "            fnums_to_remove = child_itask.flow_nums.copy()\n            if not fnums_to_remove:\n                continue"),
  ('m_c09_started_back', 'C09', 'cylc/flow/task_events_mgr.py',
   "            if flag == self.FLAG_RECEIVED and itask.state.is_gt(\n                TASK_STATUS_RUNNING\n            ):\n                # Already running.\n                return True",
   "            if False:\n                # Already running.\n                return True"),
@@ -135,7 +150,7 @@ def run(cmd, **k):
 def main():
     only = set(sys.argv[1:])
     res = {}
-    assert run('git -C /repo status --porcelain').stdout.strip() == '', 'repo dirty'
+    assert run(f'git -C {REPO} status --porcelain').stdout.strip() == '', 'repo dirty'
     for name, prop, path, old, new in M:
         if only and name not in only and prop not in only:
             continue
@@ -148,7 +163,7 @@ def main():
         try:
             open(full, 'w').write(src.replace(old, new))
             n = {'C20': 60, 'C21': 60, 'C44': 3, 'C42': 3000, 'C48': 200}.get(prop, 400)
-            r = run(f'timeout 900 {VERIF}/bin/verif check {prop} --tier quick -n {n}', cwd=VERIF)
+            r = run(f'VERIF_REPO={REPO} timeout 900 {VERIF}/bin/verif check {prop} --tier quick -n {n}', cwd=VERIF)
             caught = r.returncode == 1 and 'VIOLATION' in r.stdout
             rules = sorted({l.split('-')[-1].replace('.json', '') for l in r.stdout.splitlines() if l.startswith('VIOLATION')})
             print(f'{name} [{prop}]: exit {r.returncode} {"CAUGHT" if caught else "MISSED"} {rules}')
@@ -156,8 +171,8 @@ def main():
                 print('   ', r.stdout.strip().splitlines()[-1:], r.stderr.strip()[-300:])
             res[name] = caught
         finally:
-            run('git -C /repo checkout -- .')
-    assert run('git -C /repo status --porcelain').stdout.strip() == ''
+            run(f'git -C {REPO} checkout -- .')
+    assert run(f'git -C {REPO} status --porcelain').stdout.strip() == ''
     return 0
 
 
